@@ -232,6 +232,17 @@ def h_stft(ctx, cfg):
               "processor-can-be-called-again", "second call: %d samples, first: %d" % (len(again), len(out)))
     ctx.prove(len(ola_calls) == 1 and ola_calls[0] == {"size": size, "hop": hop, "normalize": False},
               "only-ola_-options-reach-the-overlap-add", "second call: ola got %r" % (ola_calls,))
+    # a keyword given at call time overrides the processor's default for THAT call: another analysis window function
+    # of the same size (whatever an earlier call may have computed for this size)
+    w2 = ctx.reals("v", size)
+    del seen[:]; del ola_calls[:]
+    third = list(wrapped(list(x), wnd=(lambda n: list(w2[:n])), **({"size": size, "hop": hop} if style == "partial" else {})))
+    for bi, blk in enumerate(seen):
+      for j in range(size):
+        idx = bi * hop + j
+        xv = x[idx] if idx < L else 0
+        ctx.prove(ctx.eq(blk[j], xv * w2[j]), "analysis-window-applied-before-func",
+                  "call-time window, block %d sample %d" % (bi, j))
 
 
 def h_stft_args(ctx, cfg):
